@@ -1,6 +1,6 @@
 (* C02 - any history of operations is equivalent to a key->bytes map.  Statements only (partial: see MANIFEST). *)
 From Coq Require Import List ZArith NArith.
-From DOS Require Import Base Store StoreProofs StoreLemmas Mono MonoStep Programs ProgramsProofs Validate.
+From DOS Require Import Base Store StoreProofs StoreLemmas Mono MonoStep Programs ProgramsProofs Validate PackProofs MaintProofs.
 Import ListNotations.
 
 Section C02.
@@ -36,6 +36,30 @@ Proof.
   destruct (find_row (db w') k); [exact L|]. destruct (get_loose w' k); [exact L|discriminate].
 Qed.
 
+(* packing moves objects from loose to packed without changing what any key reads back as, and indexes the whole batch *)
+Theorem C02_pack_is_invisible : forall w l id objs fs clean,
+  Inv H inflate w -> pending l = [] ->
+  Forall (obj_ok inflate w) objs -> NoDup (map okey objs) -> (forall o, In o objs -> ~ In (okey o) (map rkey (db w))) ->
+  let w' := crash (run_events (w, l) (p_pack_one w id objs fs clean)) in
+  Inv H inflate w' /\ (forall k c, stored inflate w k = Some c -> stored inflate w' k = Some c).
+Proof.
+  intros w l id objs fs clean A B C D E. cbn zeta.
+  pose proof (pack_one_crash_safe H inflate H_inj w l id objs fs clean (length (p_pack_one w id objs fs clean)) A B C D E) as (X & Y & _).
+  rewrite firstn_all in X, Y. split; assumption.
+Qed.
+
+(* delete_objects is map removal: requested keys are gone, everything else reads as before *)
+Theorem C02_delete_is_remove : forall w l ks,
+  Inv H inflate w -> pending l = [] ->
+  let w' := crash (run_events (w, l) (p_delete w ks)) in
+  Inv H inflate w' /\ (forall k, In k ks -> stored inflate w' k = None) /\
+  (forall k c, ~ In k ks -> stored inflate w k = Some c -> stored inflate w' k = Some c).
+Proof.
+  intros w l ks A B. cbn zeta.
+  pose proof (delete_always H inflate w l ks A B (length (p_delete w ks))) as (X & Y). rewrite firstn_all in X, Y.
+  split; [exact X|]. split; [|exact Y]. intros k Hk. exact (delete_removes_requested H inflate w l ks k A B Hk).
+Qed.
+
 (* deletion at the index level removes exactly the requested keys *)
 Theorem C02_delete_rows : forall d ks r, In r (apply_sql d (SDelete ks)) <-> In r d /\ ~ In (rkey r) ks.
 Proof. exact delete_spec. Qed.
@@ -47,5 +71,7 @@ End C02.
 Print Assumptions C02_views_are_the_map.
 Print Assumptions C02_add_loose_is_put.
 Print Assumptions C02_maintenance_is_invisible.
+Print Assumptions C02_pack_is_invisible.
+Print Assumptions C02_delete_is_remove.
 Print Assumptions C02_delete_rows.
 Print Assumptions C02_reads_are_content_addressed.
